@@ -277,7 +277,7 @@ def result_switch(b, call_bb, maxsteps=24):
                 cur = tt["t"]; continue
             # shape-preserving adaptors keep Some/None (Ok/Err): go on with their result
             if args and (args[0] in alias or args[0] in refalias) and re.search(
-                    r"^std::option::Option::<.*>::(cloned|copied|as_ref|as_mut|as_deref|as_deref_mut|take)(::<.*>)?$|^std::result::Result::<.*>::(as_ref|as_mut|map_err|copied|cloned)(::<.*>)?$|^<std::(option::Option|result::Result)<.*> as std::clone::Clone>::clone$",
+                    r"^std::option::Option::<.*>::(cloned|copied|as_ref|as_mut|as_deref|as_deref_mut|take|ok_or|ok_or_else)(::<.*>)?$|^std::result::Result::<.*>::(as_ref|as_mut|map_err|copied|cloned)(::<.*>)?$|^<std::(option::Option|result::Result)<.*> as std::clone::Clone>::clone$",
                     tt["f"] or "") and not is_branch:
                 alias = {tt["d"]["l"]}; refalias = set()
                 if tt["t"] < 0:
@@ -303,7 +303,8 @@ def result_switch(b, call_bb, maxsteps=24):
 # A6: effect tables
 
 SHARD_MAP = r"std::collections::HashMap::<std::vec::Vec<u8>, storage::value::StoredValue>::"
-SHARD_MAP_MUT = re.compile(SHARD_MAP + r"(insert|remove|clear|retain|drain|entry|remove_entry)\b")
+ENTRY_SV = r"std::collections::hash_map::(Entry|VacantEntry|OccupiedEntry)::<'_, std::vec::Vec<u8>, storage::value::StoredValue>::"
+SHARD_MAP_MUT = re.compile(SHARD_MAP + r"(insert|remove|clear|retain|drain|remove_entry)\b|" + ENTRY_SV + r"(or_insert|or_insert_with|or_insert_with_key|or_default|insert|insert_entry|remove|remove_entry|and_modify)\b")
 SHARD_MAP_GETMUT = re.compile(SHARD_MAP + r"get_mut\b")
 SHARD_MAP_LOOKUP = re.compile(SHARD_MAP + r"(get|get_mut|contains_key|entry|remove|iter|iter_mut|keys|values|values_mut|get_key_value|remove_entry|len|is_empty)\b")
 # payload containers
@@ -312,7 +313,8 @@ PAYLOAD_MUT = re.compile(
     r"|<std::collections::VecDeque<std::vec::Vec<u8>> as std::ops::IndexMut<usize>>::index_mut"
     r"|<std::collections::VecDeque<std::vec::Vec<u8>> as std::iter::Extend<.*>>::extend"
     r"|std::collections::HashSet::<std::vec::Vec<u8>>::(insert|remove|retain|clear|drain|take|extend)"
-    r"|std::collections::HashMap::<std::vec::Vec<u8>, std::vec::Vec<u8>>::(insert|remove|retain|clear|drain|entry|get_mut)"
+    r"|std::collections::HashMap::<std::vec::Vec<u8>, std::vec::Vec<u8>>::(insert|remove|retain|clear|drain|get_mut)"
+    r"|std::collections::hash_map::(Entry|VacantEntry|OccupiedEntry)::<'_, std::vec::Vec<u8>, std::vec::Vec<u8>>::(or_insert|or_insert_with|or_insert_with_key|or_default|insert|insert_entry|remove|remove_entry|and_modify)"
     r"|storage::skiplist::SkipList::<std::vec::Vec<u8>, f64>::(insert|remove|clear|remove_range_by_rank|remove_range_by_score|pop_min|pop_max)"
     r"|storage::stream::Stream::(add_auto|add_with_id|add|trim_by_count|trim_by_minid|delete|clear|set_last_id)"
     r"|storage::value::ValueMetadata::(set_expiration|clear_expiration|touch)"
